@@ -767,7 +767,19 @@ func runWith(tr transcript, f fault, plainRW bool) result {
 		if f.kind == "writetimeout" && n == f.n {
 			return netTimeout{}
 		}
+		if f.kind == "writestall" && n == f.n {
+			// the peer has stopped reading: this write and every later one block
+			// until a deadline makes them fail; the context ends while the write
+			// is blocked
+			go func() {
+				time.Sleep(5 * time.Millisecond)
+				cancel()
+			}()
+		}
 		return nil
+	}
+	if f.kind == "writestall" {
+		peer.Conn.StallWritesFrom = f.n
 	}
 	if f.kind == "readerrdata" {
 		// read number f.n delivers its data and reports a failure in the same
@@ -877,7 +889,7 @@ func judge(tr transcript, f fault, base, r result) string {
 		if f.n >= base.reads {
 			return ""
 		}
-	case "writeerr", "writelate", "writetimeout":
+	case "writeerr", "writelate", "writetimeout", "writestall":
 		if f.n >= base.writes {
 			return ""
 		}
@@ -892,7 +904,7 @@ func judge(tr transcript, f fault, base, r result) string {
 	if ready(r) {
 		return fmt.Sprintf("fault before completion: error %v but the session is marked ready (state %v)", r.err, r.s.State())
 	}
-	if f.kind == "block" && r.elapsed > 5*time.Second {
+	if (f.kind == "block" || f.kind == "writestall") && r.elapsed > 5*time.Second {
 		return fmt.Sprintf("the call took %v to return after the cancellation", r.elapsed)
 	}
 	return ""
@@ -963,6 +975,11 @@ func TestC04Sweep(t *testing.T) {
 		for n := 0; n < base.writes; n++ {
 			ev.Case(true, fmt.Sprintf("%s writelate@%d", tr.name, n), "write-delivered-but-reported-failed")
 			checkFault(t, tr, fault{kind: "writelate", n: n}, n%2 == 0, base)
+		}
+		for n := 0; n < base.writes; n++ {
+			// (a transport with deadlines whose peer stops reading)
+			ev.Case(true, fmt.Sprintf("%s writestall@%d", tr.name, n), "peer-stops-reading-then-context-ends")
+			checkFault(t, tr, fault{kind: "writestall", n: n}, false, base)
 		}
 		for n := 0; n < base.ops; n++ {
 			ev.Case(n > 1, fmt.Sprintf("%s cancel@%d", tr.name, n), "cancel-before-op")
